@@ -10,6 +10,8 @@
       ``spec['_parameters']['bias'] is not None`` — the object export tests.
  R04c shared vs per-invocation: each _get_single_cost iterates the unique list iff
       ``cost_spec.shared`` (sibling agreement PIT / MPS / SuperNet / mps.utils).
+ R04h the wrapper's two layer lists hold what their names say (every invocation / each layer
+      once), followed through the tuple the conversion returns.
  R04d fresh spec and accumulation: searchable layers are charged through a fresh
       dict(vars(self)) updated with the node's shapes; every layer's cost is added; fixed
       layers are charged only under full_cost.
@@ -311,6 +313,97 @@ def accumulation_rule(ctx, rule: str, label: str, fn, keep=None):
            where(fn, next(iter(lost.values())).node) if lost else where(fn))
 
 
+def tuple_elems(t: Term) -> Optional[List[Term]]:
+    """Elements of a tuple-valued term: a display, or displays joined with ``+``."""
+    if t[0] == 'tuple':
+        return list(t[1])
+    if t[0] == 'bin' and t[1] == '+':
+        a, b = tuple_elems(t[2]), tuple_elems(t[3])
+        if a is not None and b is not None:
+            return a + b
+    return None
+
+
+def lookup_key_rule(ctx, rule: str, wname: str):
+    """Cost-function selection: every CostSpec lookup of _single_cost_fn_map uses the key
+    (layer type, vars(layer)) -- the STATIC attributes of the layer.  Pattern constraints
+    compare integer hyper-parameters (in_channels == groups); a spec with effective
+    (fractional, mask- or coefficient-dependent) sizes makes them fail and selects the generic
+    function for a depthwise layer, and the selection is frozen when the map is built."""
+    repo = ctx.repo
+    sf = repo.cls(wname).methods['_single_cost_fn_map']
+    n, bad = 0, []
+    for p in returning(paths(repo, sf)):
+        for e in p.events:
+            if e.kind == 'setitem' and e.data[0][0] != 'unknown':
+                v = e.data[2]
+                if v[0] == 'sub' and v[1] == ('param', sf.params[1]) and v[2][0] == 'tuple' and \
+                        len(v[2][1]) == 2:
+                    n += 1
+                    spec = v[2][1][1]
+                    if not (is_call(spec, 'builtins.vars') and spec[2] and
+                            spec[2][0][0] in ('sub', 'elem')):
+                        bad.append((e, spec))
+    ctx.ob(rule, f'{wname}._single_cost_fn_map lookup key', n > 0 and not bad,
+           'cost functions are selected with (layer type, vars(layer)): static attributes'
+           if n > 0 and not bad else
+           'no CostSpec lookup found' if not bad else
+           f'a cost function is selected with the spec {short(bad[0][1], 80)} instead of '
+           f'vars(layer): pattern constraints (depthwise: in_channels == groups) are evaluated '
+           f'on effective sizes that are fractional during the search, fail, and the generic '
+           f'model is frozen into the map for a depthwise layer',
+           where(sf, bad[0][0].node) if bad else where(sf))
+
+
+def leaf_lists_rule(ctx, rule: str, wname: str):
+    """The two layer lists of a wrapper hold what _get_single_cost takes them for:
+    ``_leaf_modules`` every invocation (named_leaf_modules of the converted graph),
+    ``_unique_leaf_modules`` each layer once (uniquify_leaf_modules of it).  The values are
+    followed from the constructor's stores through the tuple the conversion returns."""
+    repo = ctx.repo
+    w = repo.cls(wname)
+    init = w.methods['__init__']
+    n = 0
+    for p in returning(paths(repo, init)):
+        for e in p.events:
+            if not (e.kind == 'setattr' and e.data[0] == SELF and
+                    e.data[1] in ('_leaf_modules', '_unique_leaf_modules')):
+                continue
+            v = e.data[2]
+            comps: List[Term] = []
+            if v[0] == 'sub' and v[2][0] == 'const' and isinstance(v[2][1], int) and \
+                    v[1][0] == 'call' and callee(v[1]) in repo.functions:
+                conv = repo.functions[callee(v[1])]
+                for q in returning(paths(repo, conv)):
+                    els = tuple_elems(q.retval) if q.retval is not None else None
+                    if els is None or v[2][1] >= len(els):
+                        raise AnalysisError(f'{rule}: {conv.qualname} does not return a tuple '
+                                            f'display ({short(q.retval, 80)})')
+                    comps.append(els[v[2][1]])
+            else:
+                comps.append(v)
+            if not comps:
+                continue
+            n += 1
+            uniq = [mentions(c, lambda y: y[0] == 'call' and
+                             (callee(y) or '').endswith('uniquify_leaf_modules')) for c in comps]
+            named = [mentions(c, lambda y: y[0] == 'call' and
+                              (callee(y) or '').endswith('named_leaf_modules')) for c in comps]
+            want_unique = e.data[1] == '_unique_leaf_modules'
+            ok = all(named) and all(u == want_unique for u in uniq)
+            ctx.ob(rule, f'{wname}.{e.data[1]} content', ok,
+                   ('each layer once (uniquify_leaf_modules)' if want_unique else
+                    'every invocation (named_leaf_modules, not de-duplicated)') if ok else
+                   f'self.{e.data[1]} receives {short(comps[0], 90)}: '
+                   + ('the per-invocation list ends up in the attribute that shared metrics '
+                      '(parameters) iterate, so a layer used twice is counted twice'
+                      if want_unique else
+                      'the de-duplicated list ends up in the attribute that per-invocation '
+                      'metrics (operations) iterate, so a layer used twice is counted once'),
+                   where(init, e.node))
+    ctx.floor(rule, f'{wname} leaf-list stores', n, 2)
+
+
 def r04d(ctx):
     repo = ctx.repo
     w = repo.cls('PIT')
@@ -347,19 +440,7 @@ def r04d(ctx):
     accumulation_rule(ctx, 'R04d', 'PIT._get_single_cost', fn)
     ctx.floor('R04d', 'searchable-layer cost sites', searchable, 1)
     ctx.floor('R04d', 'fixed-layer cost sites', fixed, 1)
-    # cost-function selection: original torch type through pit_layer_map, static vars
-    sf = w.methods['_single_cost_fn_map']
-    ok = False
-    for p in returning(paths(repo, sf)):
-        for e in p.events:
-            if e.kind == 'setitem' and e.data[0][0] != 'unknown':
-                v = e.data[2]
-                if v[0] == 'sub' and v[1] == ('param', sf.params[1]) and v[2][0] == 'tuple' and \
-                        is_call(v[2][1][1], 'builtins.vars'):
-                    ok = True
-    ctx.ob('R04d', 'PIT._single_cost_fn_map lookup key', ok,
-           'cost function looked up with (layer type, vars(layer))' if ok else
-           'cost function lookup does not use (type, vars(layer))', where(sf), nontrivial=False)
+    lookup_key_rule(ctx, 'R04d', 'PIT')
 
 
 def r04f(ctx):
@@ -429,6 +510,7 @@ def run(ctx):
     r04b(ctx)
     r04c(ctx)
     r04d(ctx)
+    leaf_lists_rule(ctx, 'R04h', 'PIT')
     from .c12 import r12e
     r12e(ctx, 'R04e')       # unpruned continuous size = original size
     ctx.assume('nn.Module stores a missing bias as _parameters["bias"] = None')
